@@ -660,6 +660,10 @@ class err_gs(err_node):
         #elif '6' in err_codes: return 'E'
         if len(self.errors) > 0:
             return 'R'
+        for ele in self.elements:
+            # errors in the elements of the GS and GE segments themselves
+            if ele.get_error_count() > 0:
+                return 'R'
         return 'A'
 
     def count_failed_st(self):
